@@ -221,12 +221,78 @@ func runRef(seed uint64, cfg *C19Config, prog []Op, st *C19Stats) ([]Op, []stepR
 				}
 			}
 		}
+		// oracle 2b: a new tensor never shares its shape or strides slice with another live tensor, and the
+		// result of an operation that promises an independent tensor shares neither storage nor mask with one
+		if o.St == stOK && op.Out >= 0 && op.Out < len(w.slots) {
+			if d := aliasOfResult(w, &op, prePtr); d != "" {
+				return out, recs, &Violation{Property: "C19", Kind: "frame", Step: k, FailOp: op.Name, Detail: d, Class: "alias:" + classOf(d)}
+			}
+		}
 		preSn, preLv, preRoots = sn, lv, roots
 	}
 	if st != nil {
 		st.FaultsFired += w.eng.st.fired
 	}
 	return out, recs, nil
+}
+
+// independentResult: operations whose result (without a reuse or unsafe option) is documented as a tensor of its own.
+var independentResult = map[string]bool{"SafeT": true, "PkgT": true, "Materialize": true, "PkgTranspose": true, "Clone": true, "Clamp": true, "Apply": true,
+	"Reduce": true, "Sum": true, "Max": true, "Min": true, "PkgSum": true, "Norm": true, "Argmax": true, "Argmin": true,
+	"MatVecMul": true, "MatMul": true, "Outer": true, "TensorMul": true, "Contract": true, "Dot": true,
+	"Concat": true, "PkgConcat": true, "Stack": true, "Hstack": true, "Vstack": true, "Repeat": true, "PkgRepeat": true,
+	"Gob": true, "Npy": true, "CSV": true, "PB": true, "FB": true, "Filled": true, "Diag": true}
+
+func firstInt(s []int) uintptr {
+	if cap(s) == 0 {
+		return 0
+	}
+	return uintptr(unsafe.Pointer(&s[:1][0]))
+}
+
+func aliasOfResult(w *World, op *Op, prePtr []*tensor.Dense) string {
+	res := w.slots[op.Out]
+	if res == nil {
+		return ""
+	}
+	for _, t := range prePtr {
+		if t == res {
+			return "" // the operation returned one of the tensors that existed before: not a new tensor
+		}
+	}
+	indep := independentResult[op.Name]
+	if _, ok := binFns[op.Name]; ok {
+		indep = true
+	}
+	if _, ok := unFns[op.Name]; ok {
+		indep = true
+	}
+	if op.Mode != "" && op.Mode != "same" {
+		indep = false
+	}
+	rs, rt := firstInt(res.Shape()), firstInt(res.Strides())
+	rp, rn := rawOf(res)
+	for i, t := range prePtr {
+		if t == nil || i >= len(w.slots) || w.slots[i] != t {
+			continue
+		}
+		if p := firstInt(t.Shape()); p != 0 && (p == rs || p == rt) {
+			return fmt.Sprintf("%s returned a new tensor whose shape/strides slice is the shape slice of live slot %d", op.Name, i)
+		}
+		if p := firstInt(t.Strides()); p != 0 && (p == rs || p == rt) {
+			return fmt.Sprintf("%s returned a new tensor whose shape/strides slice is the strides slice of live slot %d", op.Name, i)
+		}
+		if !indep {
+			continue
+		}
+		if tp, tn := rawOf(t); rp != 0 && tp != 0 && rp < tp+uintptr(tn) && tp < rp+uintptr(rn) {
+			return fmt.Sprintf("%s (no reuse or unsafe option) returned a new tensor that shares storage with live slot %d", op.Name, i)
+		}
+		if rm, tm := res.Mask(), t.Mask(); cap(rm) > 0 && cap(tm) > 0 && &rm[:1][0] == &tm[:1][0] {
+			return fmt.Sprintf("%s (no reuse or unsafe option) returned a new tensor that shares its mask with live slot %d", op.Name, i)
+		}
+	}
+	return ""
 }
 
 func classOf(d string) string {
